@@ -363,9 +363,99 @@ class Engine:
                 ctx.sample({"vresp": vresp_lines[0][:300], "verdict": vout[0][:40]})
 
 
-def standard_sessions(ctx, eng, fault=0, levels=(3,), batches=None, rounds_per=3):
+def classify_compare(ctx, srv, dgrams, tagfn=None):
+    """impl / model / Coq spec on request classification for a list of datagrams"""
+    seen, uniq = set(), []
+    for d in dgrams:
+        if d not in seen:
+            seen.add(d); uniq.append(d)
+    wf_lines = ["wfspec %s %s" % (rt.hx(srv), rt.hx(d)) for d in uniq]
+    wf_out = vlib.run_model(wf_lines)
+    cl_out = vlib.run_impl(["classify" + l[6:] for l in wf_lines])
+    cm_out = vlib.run_model(["classify" + l[6:] for l in wf_lines])
+    ctx.evaluations += len(uniq)
+    res = {}
+    for d, l, a, b, c in zip(uniq, wf_lines, wf_out, cl_out, cm_out):
+        rep = {"cmd": "classify", "line": l[:140000], "spec": a, "impl": b, "model": c}
+        res[d] = a
+        acc_spec, acc_impl = a.startswith("OK"), b.startswith("OK")
+        ctx.count("classify:" + (b.split()[1].split("(")[0] if b.startswith("ERR") else b.split()[0]))
+        if b == "PANIC" or b.startswith(("CRASH", "HARNESS")):
+            ctx.violation("property", "request classification panicked on a %d-byte datagram" % len(d), rep)
+        elif acc_spec != acc_impl or (acc_spec and a != b):
+            ctx.violation("property", "server accepts=%s a %d-byte datagram that the protocol spec classifies as wellformed=%s" % (acc_impl, len(d), acc_spec), rep)
+        elif b != c:
+            if b.startswith("ERR") and c.startswith("ERR"):
+                ctx.note("error variant differs impl %s / model %s" % (b, c))
+            else:
+                ctx.violation("tie", "model and implementation disagree on classify", rep)
+        else:
+            ctx.traces_validated += 1
+            if 1024 <= len(d) <= 1500:
+                ctx.nontriv("cl:" + rt.fnv64(d))
+    return res
+
+
+def length_stream(ctx, good_srv):
+    """datagrams targeting the length gate, the nonce length and the frame length"""
     r = ctx.rng
-    batches = batches or ([1, 2, 3, 7, 16, 63, 64] if not ctx.thorough else list(range(1, 65)))
+    out = []
+    for L in list(range(1016, 1033)) + list(range(1492, 1509)) + [0, 1, 4, 8, 12, 500, 2000, 4096, 65507]:
+        out.append(rnd(r, L))
+        c = rt.mk_classic(rnd(r, 64), max(L, 100))
+        out.append(c[:L] if len(c) >= L else c + bytes(L - len(c)))
+        i = rt.mk_ietf(rnd(r, 32), max(L - 12, 100))
+        out.append(i[:L] if len(i) >= L else i + bytes(L - len(i)))
+    for L in range(1024, 1501, 4):      # every aligned valid size
+        out.append(rt.mk_classic(rnd(r, 64), L))
+        if L >= 1036:
+            out.append(rt.mk_ietf(rnd(r, 32), L - 12))
+    step = 4 if ctx.thorough else 36
+    for nl in list(range(0, 1000, step)) + [28, 32, 36, 60, 64, 68, 1016]:   # aligned nonce lengths
+        out.append(rt.mk_classic(rnd(r, nl), 1024))
+        out.append(rt.mk_ietf(rnd(r, nl), 1024))
+    base = rt.mk_ietf(rnd(r, 32), 1024)
+    true_len = len(base) - 12
+    for delta in list(range(-16, 17)) + [-1024, 1024, 2**31, -true_len]:   # frame-length values
+        d = bytearray(base); struct.pack_into("<I", d, 8, (true_len + delta) & 0xffffffff); out.append(bytes(d))
+    for _ in range(300 if not ctx.thorough else 5000):
+        out.append(junk(r, good_srv))
+    return out
+
+
+def ver_matrix(ctx, good_srv):
+    """every VER list of length 0..6 over {draft-13, classic 0, two unknown numbers} x SRV absent/right/wrong"""
+    import itertools
+    r = ctx.rng
+    words = [rt.DRAFT13, bytes(4), bytes.fromhex("0b000080"), bytes.fromhex("01000000")]
+    out = []
+    maxlen = 6 if ctx.thorough else 5
+    nonce = rnd(r, 32)
+    for L in range(0, maxlen + 1):
+        for vs in itertools.product(words, repeat=L):
+            for srv in (None, good_srv, bytes(32)):
+                if not ctx.thorough and L == 5 and srv is not None and (hash(vs) % 3):
+                    continue
+                if L == 0:
+                    d = rt.mk_ietf(nonce, 1024, vers=(), srv=srv)
+                else:
+                    d = rt.mk_ietf(nonce, 1024, vers=vs, srv=srv)
+                want = (rt.DRAFT13 in vs[:4]) and (srv is None or srv == good_srv)
+                out.append((d, want))
+    # SRV under every single-bit corruption, wrong lengths, another server's value
+    for bit in range(256):
+        s2 = bytearray(good_srv); s2[bit // 8] ^= 1 << (bit % 8)
+        out.append((rt.mk_ietf(nonce, 1024, srv=bytes(s2)), False))
+    for L in (0, 28, 36, 64):
+        out.append((rt.mk_ietf(nonce, 1024, srv=(good_srv * 2)[:L]), False))
+    out.append((rt.mk_ietf(nonce, 1024, srv=hashlib.sha512(b"\xff" + bytes(32)).digest()[:32]), False))
+    out.append((rt.mk_ietf(nonce, 1024, srv=good_srv), True))
+    return out
+
+
+def standard_sessions(ctx, eng, fault=0, levels=(3,), batches=None, rounds_per=6):
+    r = ctx.rng
+    batches = batches or ([1, 2, 3, 5, 8, 16, 33, 63, 64] if not ctx.thorough else list(range(1, 65)))
     pk = "d0756ee69ff5fe96cbcf9273208fec53124b1dd3a24d3910e07c7c54e2473012"
     good_srv = hashlib.sha512(b"\xff" + bytes.fromhex(pk)).digest()[:32]
     for b in batches:
@@ -399,13 +489,89 @@ def run_c09(ctx):
     proof_verdict(ctx)
 
 
+def measure_faults(ctx):
+    """fault_percentage p: every reply either verifies in full or fails outright; failing share ~ p"""
+    r = ctx.rng
+    import math
+    for p in ((1, 10, 50) if not ctx.thorough else (1, 5, 10, 25, 50)):
+        eng = Engine(ctx, "C02F")
+        nrounds = 36
+        for _ in range(4):
+            rounds = [[(i % 6, valid_classic(r, 1024) if (i % 2) else valid_ietf(r, size=1012)) for i in range(16)] for _ in range(32)]
+            eng.add((16, p, 3, 0), rounds * 1, 6)
+        eng.run()
+        pairs = []
+        for s, lines, il, ml in eng.results:
+            for k, rd in enumerate(s["rounds"]):
+                pi = parse_run(il[1 + k])
+                if pi["status"] != "OK":
+                    ctx.violation("property", "process_events failed with fault_percentage %d" % p, {"cmd": "serve", "cfg": list(s["cfg"]), "seed": s["seed"], "lines": lines, "round": k})
+                    continue
+                reqs = {}
+                for sock, d in rd:
+                    reqs.setdefault(sock, []).append(d)
+                for sock, b in pi["replies"]:
+                    ver = guess_ver(b)
+                    # candidates: requests of that socket and protocol; a reply verifies for at most its own request
+                    cands = [d for d in reqs.get(sock, []) if (d[:8] == rt.MAGIC) == (ver == "RfcDraft13")]
+                    pairs.append((s, ver, cands, b))
+        lines = []
+        for s, ver, cands, b in pairs:
+            for d in cands:
+                lines.append("vresp %s %s %s %s" % (ver, s["pk"], rt.hx(d), rt.hx(b)))
+        vout = vlib.run_model(lines, per_shard=60)
+        qlines, qmap = [], {}
+        for o in vout:
+            i = o.find("Q=")
+            for q in (o[i + 2:].split(";") if i >= 0 else []):
+                if q and q not in qmap:
+                    qmap[q] = len(qlines); qlines.append("edverify " + q.replace(",", " "))
+        qout = vlib.run_impl(qlines)
+        k = 0
+        n = fails = 0
+        for s, ver, cands, b in pairs:
+            ok_any = False
+            for d in cands:
+                o = vout[k]; k += 1
+                i = o.find("Q=")
+                qs = [q for q in (o[i + 2:].split(";") if i >= 0 else []) if q]
+                if o.startswith("V=1") and len(qs) == 2 and all(qout[qmap[q]] == "1" for q in qs):
+                    ok_any = True
+            n += 1
+            fails += 0 if ok_any else 1
+        ctx.evaluations += n
+        exp = p / 100.0 * (1 - 1 / 1440.0)
+        sigma = math.sqrt(exp * (1 - exp) / max(n, 1))
+        share = fails / max(n, 1)
+        ctx.extra.setdefault("fault_rate_measurements", []).append({"p": p, "replies": n, "failing": fails, "share": round(share, 4), "expected": round(exp, 4), "six_sigma": round(6 * sigma, 4)})
+        if n < 2000:
+            ctx.note("fault measurement at p=%d has only %d replies" % (p, n))
+        if abs(share - exp) > 6 * sigma + 1e-9:
+            ctx.violation("property", "with fault_percentage=%d the failing share is %.4f over %d replies, expected %.4f +/- %.4f (6 sigma)" % (p, share, n, exp, 6 * sigma),
+                          {"cmd": "fault-rate", "p": p, "replies": n, "failing": fails})
+
+
 def run_c02(ctx):
-    run_generic(ctx, "C02", "every (request, reply) of in-process server rounds over batch sizes and protocol mixes is judged by the Coq spec verifier (signature queries answered by one-shot ed25519-dalek) and by Python Merkle recomputation; non-trivial = distinct round with >= 2 datagrams and an accepted request")
+    run_generic(ctx, "C02", "every (request, reply) of in-process server rounds over batch sizes and protocol mixes is judged by the Coq spec verifier (signature queries answered by one-shot ed25519-dalek) and by Python Merkle recomputation; with fault_percentage 1/10/50 >= 2000 replies each are classified verify-in-full / fail-outright and the failing share is compared with p within 6 sigma (a measurement, not a theorem); non-trivial = distinct round with >= 2 datagrams and an accepted request")
+    measure_faults(ctx)
     proof_verdict(ctx)
 
 
+PK = "d0756ee69ff5fe96cbcf9273208fec53124b1dd3a24d3910e07c7c54e2473012"
+GOOD_SRV = hashlib.sha512(b"\xff" + bytes.fromhex(PK)).digest()[:32]
+
+
 def run_c07(ctx):
-    eng = run_generic(ctx, "C07", "datagrams of length 0..2000 (random, truncated / extended valid requests, nonce lengths, frame-length values, field mutations) through request classification (impl / model / Coq spec) and through the in-process server; non-trivial = distinct round with >= 2 datagrams and an accepted request")
+    eng = run_generic(ctx, "C07", "datagrams of length 0..65507 (random, truncated / extended valid requests at every length around the gates, every aligned valid size, aligned nonce lengths, frame-length values, field mutations) through request classification (impl / model / Coq spec) and through the in-process server incl. full batches of 64 for maximum-depth paths; non-trivial = distinct datagram that passes the length gate, or a round with an accepted request")
+    classify_compare(ctx, GOOD_SRV, length_stream(ctx, GOOD_SRV))
+    # full batches of maximum depth, both protocols: reply length vs request length
+    eng2 = Engine(ctx, "C07")
+    r = ctx.rng
+    for b in (64, 63, 33):
+        rounds = [[(i % 8, valid_classic(r, 1024)) for i in range(64)], [(i % 8, valid_ietf(r, size=1012)) for i in range(64)],
+                  [(i % 8, valid_classic(r, 1024) if i % 2 else valid_ietf(r, size=1012)) for i in range(64)]]
+        eng2.add((b, 0, 3, 0), rounds, 8)
+    eng2.run(); eng2.judge()
     proof_verdict(ctx)
 
 
@@ -421,7 +587,32 @@ def run_c08(ctx):
 
 
 def run_c12(ctx):
-    run_generic(ctx, "C12", "IETF version lists and SRV values through classification and the in-process server")
+    ctx.rule = "every VER list of length 0..5 (thorough: 0..6) over {draft-13, classic 0, two unknown numbers} x SRV absent / correct / wrong, SRV under every single-bit corruption, wrong lengths and another server's value, through classification (impl / model / Coq spec) and, sampled, through the in-process server; non-trivial = distinct request that passes the length gate"
+    vlib.prepare(ctx)
+    mat = ver_matrix(ctx, GOOD_SRV)
+    res = classify_compare(ctx, GOOD_SRV, [d for d, _ in mat])
+    ctx.count("ver_matrix_rows", len(mat))
+    for d, want in mat:
+        got = res[d].startswith("OK")
+        if got != want:
+            ctx.violation("tie", "Coq spec `wellformed` disagrees with the property's accept rule on the version/SRV matrix (want %s)" % want,
+                          {"cmd": "classify", "line": "wfspec %s %s" % (rt.hx(GOOD_SRV), rt.hx(d))})
+    # a sample of the matrix through the real server: answered iff accepted, reply states draft-13 in SREP
+    r = ctx.rng
+    eng = Engine(ctx, "C12")
+    sample = [mat[r.randrange(len(mat))] for _ in range(240 if not ctx.thorough else 2000)] + mat[-262:][::8]
+    for k in range(0, len(sample), 40):
+        eng.add((16, 0, 3, 0), [[(i % 4, d) for i, (d, _) in enumerate(sample[k:k + 40])]], 4)
+    eng.run(); eng.judge()
+    for s_, lines, il, ml in eng.results:
+        pi = parse_run(il[1])
+        for sock, b in pi["replies"]:
+            f = fields_of(b, guess_ver(b)) or {}
+            sm = dict(rt.decode(f.get("SREP", b"")) or [])
+            if guess_ver(b) != "RfcDraft13" or sm.get("VER") != rt.DRAFT13 or sm.get("VERS") != bytes(4) + rt.DRAFT13:
+                ctx.violation("property", "IETF reply does not state draft-13 and the supported versions inside SREP",
+                              {"cmd": "serve", "cfg": list(s_["cfg"]), "seed": s_["seed"], "lines": lines})
+    ctx.sample({"matrix_row": rt.hx(mat[7][0])[:160], "want": mat[7][1]})
     proof_verdict(ctx)
 
 
